@@ -480,6 +480,11 @@ def run_case(case, ctx, full_output=True):
             if info is not None:
                 res['info'] = type(info)(*[k_ if isinstance(o_, np.ndarray) else o_ for k_, o_ in zip(keep[1:], info)])
     res['f_finite'] = all(c.out_finite is not False for c in rec.calls)
+    # element by element (an element whose own evaluations are all finite is judged even if a neighbour left the domain)
+    xshape = np.shape(np.asarray(x))
+    masks = [c.finite_mask for c in rec.calls]
+    if xshape and all(mk is not None and mk.shape == xshape for mk in masks) and masks:
+        res['f_finite_mask'] = np.logical_and.reduce(masks).ravel()
     return res
 
 
@@ -539,7 +544,13 @@ def oracle_for_element(case, res, e, x_e, value_e, est_e, fstep_e):
     if not sc.ok:
         m.skip = 'skipped_singular_segment'
         return m
-    if not res['f_finite']:
+    if cancel_free and sc.minabs * min(rhos[-1], 1.0) ** max(n, 1) < 1e-290:
+        # the step-sized components (h^n f^(n) of an intermediate value) fall into the subnormal range: the relative rounding
+        # model behind the envelope does not hold there (x**400 at 0.18, times 3e196: the h^2 component of x**400 is 3e-319)
+        m.skip = 'skipped_step_sized_components_underflow'
+        return m
+    fm = res.get('f_finite_mask')
+    if not (bool(fm[e]) if fm is not None and e < len(fm) else res['f_finite']):
         m.skip = 'skipped_nonfinite_f'
         return m
     # radius of validity of the Taylor model
